@@ -673,7 +673,45 @@ def r01_5(ctx, counts: dict[str, int]) -> RuleResult:
                              f'{f.key}, which numbers the items 1..n whatever the axis of the '
                              f'step: with <a><b><c><d/></c></b></a>, //d/ancestor::*[true()][1] '
                              f'selects a instead of c (libxml2: c)'))
+    # (b) the filter itself takes its items from the focus iteration of its left operand
+    from .common import enclosing_map
+    done: set = set()
+    n_y = 0
+    for pname, table in sorted(reg.tables.items()):
+        ref = table['['].method('select')
+        g = ref.func if ref is not None else None
+        if g is None:
+            raise AnalysisError(f'{pname}: select of "[" not resolved')
+        if g in done:
+            continue
+        done.add(g)
+        me = g.params()[0]
+        encl = enclosing_map(g.node)
+        for y in walk_local(g.node):
+            if not isinstance(y, (ast.Yield, ast.YieldFrom)):
+                continue
+            n_y += 1
+            loops = [lp for lp in encl.get(id(y), []) if isinstance(lp, ast.For)
+                     and isinstance(lp.iter, ast.Call) and isinstance(lp.iter.func, ast.Attribute)
+                     and lp.iter.func.attr == 'select_with_focus'
+                     and stmt_text(lp.iter.func.value) == f'{me}[0]']
+            ok = bool(loops) and isinstance(y, ast.Yield)
+            res.instances.append(f'{g.key}: L{y.lineno} `{stmt_text(y)[:40]}` inside the loop over '
+                                 f'{me}[0].select_with_focus(..): {ok}')
+            if ok:
+                res.ok()
+            else:
+                res.fail(finding('R01.5', g, y, 'predicate result outside the focus iteration',
+                                 f'`{stmt_text(y)[:50]}` delivers a result of the filter '
+                                 f'expression without iterating {me}[0].select_with_focus(..): the '
+                                 f'proximity positions of the step (reverse for a reverse axis, '
+                                 f'also through a chain of predicates) are then not the ones the '
+                                 f'item is selected by; ancestor::*[@k][1] picks the farthest '
+                                 f'ancestor'))
     counts['predicate_tokens'] = n
+    counts['predicate_yields'] = n_y
+    if n_y < 2:
+        raise AnalysisError(f'select of "[": {n_y} yields located')
     return res
 
 
